@@ -84,6 +84,10 @@ def r_own(F, S):
     # SliceReader constructors copy-construct the wrapped stream from the parent (not move / not alias)
     for c in F.fns(SR + "::SliceReader"):
         n += 1
+        if any(i0.get("delegating") for i0 in c.d.get("inits", [])):
+            out.append(ok("R-OWN", "%s#wrapped-copy" % c.key, c.loc(c.body), c.qn, "the wrapped stream is copy-constructed (FileReader copy reopens)",
+                          "delegating constructor: the target constructor copy-constructs the stream", nontrivial=False))
+            continue
         inits = {i.get("field"): i for i in c.d.get("inits", []) if "field" in i}
         ini = inits.get("wrappedStream")
         nd0 = c.n(c.strip(ini["init"], casts=False)) if ini else {}
@@ -175,38 +179,54 @@ def slice_construction(F, S, inv_slice):
     """Every SliceReader constructor passes Initialize; containment guards precede the positioning seek."""
     out = []
     n = 0
-    for c in F.fns(SR + "::SliceReader"):
-        eng = Engine(F, S)
-        ex = eng.analyze(c, frozenset())
-        n += 1
-        inst = "%s#initialize" % c.key
-        called = ex is not None and any(f[0] == "ev" and f[1] == "called" and f[2] == SR + "::Initialize" for f in ex)
-        if called:
-            out.append(ok("R-MUSTCALL", inst, c.loc(c.body), c.qn, "every constructor passes Initialize() (containment check + positioning)",
-                          "Initialize() is on every path to the normal exit"))
-        else:
-            out.append(bad("R-MUSTCALL", inst, c.loc(c.body), c.qn, "every constructor passes Initialize() (containment check + positioning)",
-                           "a path reaches the end of the constructor without Initialize()"))
-    ini = F.fn(SR + "::Initialize", nparams=0)
-    eng = Engine(F, S)
-    eng.analyze(ini, frozenset(inv_slice))
-    seeks = [nd for nd in ini.nodes if nd["k"] == "CXXMemberCallExpr" and nd.get("fname") == "Seek"]
-    if len(seeks) != 1:
-        raise AnalysisBroken("SliceReader::Initialize: expected one Seek")
-    site = final_site_facts(eng, ini, seeks[0]["id"]) or set()
-    n += 1
+    from ..through import closure
+    from ..prove import equal_terms
     so, sl = ("mem", ("this",), "startingOffset"), ("mem", ("this",), "sliceLength")
     ws = ("mem", ("this",), "wrappedStream")
     length = ("call", NS + "FileReader::Length", ws, ())
-    cont = prove_le(site, ("op", "+", so, sl), length)
-    if cont and ini.term(seeks[0]["args"][0]) == so:
-        out.append(ok("R-MUSTCALL", SR + "::Initialize#containment", ini.loc(seeks[0]["id"]), ini.qn,
-                      "startingOffset + sliceLength <= parent length is established before the slice is positioned at startingOffset",
-                      "guard dominates Seek(startingOffset)"))
-    else:
-        out.append(bad("R-MUSTCALL", SR + "::Initialize#containment", ini.loc(seeks[0]["id"]), ini.qn,
-                       "startingOffset + sliceLength <= parent length is established before the slice is positioned at startingOffset",
-                       "facts at the seek: " + ("; ".join(sorted(fmt_fact(f) for f in site if f[0] not in ("ev", "called"))) or "none")))
+    ctors = list(F.fns(SR + "::SliceReader"))
+    for c in ctors:
+        n += 1
+        inst = "%s#initialize" % c.key
+        req = "every constructor checks containment (startingOffset + sliceLength <= parent length) and then positions the copy at startingOffset"
+        dele = [i0 for i0 in c.d.get("inits", []) if i0.get("delegating")]
+        if dele:
+            # a delegating constructor runs a target constructor completely: the target is judged below; here only that the
+            # target is one of this class's own constructors and receives the source object's three members
+            t = c.term(dele[0]["init"])
+            src = [("var", p["n"], p["d"]) for p in c.params]
+            okd = t[0] == "ctor" and len(t[2]) == 3 and len(src) == 1 and \
+                [x for x in t[2]] == [("mem", src[0], "wrappedStream"), ("mem", src[0], "startingOffset"), ("mem", src[0], "sliceLength")]
+            if okd:
+                out.append(ok("R-MUSTCALL", inst, c.loc(c.body), c.qn, req, "delegates to the checking constructor with the source's stream, offset and length", nontrivial=False))
+            else:
+                out.append(bad("R-MUSTCALL", inst, c.loc(c.body), c.qn, req, "delegating constructor passes %s" % fmt_term(t)))
+            continue
+        eng = Engine(F, S)
+        ex = eng.analyze(c, frozenset(inv_slice) if False else frozenset())
+        seeks = []
+        for f in closure(F, c):
+            for nd in f.nodes:
+                if nd["k"] == "CXXMemberCallExpr" and nd.get("fname") == "Seek" and "obj" in nd and f.term(nd["obj"]) == ws:
+                    site = final_site_facts(eng, f, nd["id"])
+                    if site is not None:
+                        seeks.append((f, nd, site))
+        on_every_path = ex is not None and any(f[0] == "ev" and f[1] == "called" and f[2] == NS + "FileReader::Seek" for f in ex)
+        good = len(seeks) == 1 and on_every_path
+        detail = "%d positioning seeks; on every path to the normal exit: %s" % (len(seeks), on_every_path)
+        if good:
+            f, nd, site = seeks[0]
+            arg = f.term(nd["args"][0])
+            cont = prove_le(site, ("op", "+", so, sl), length)
+            at_start = arg == so or equal_terms(arg, so, site)
+            good = cont and at_start
+            detail = "containment %s at the seek; seek target %s" % ("holds" if cont else "not established", fmt_term(arg))
+            if not good:
+                detail += "; facts at the seek: " + ("; ".join(sorted(fmt_fact(x) for x in site if x[0] not in ("ev", "called"))) or "none")
+        if good:
+            out.append(ok("R-MUSTCALL", inst, c.loc(c.body), c.qn, req, detail))
+        else:
+            out.append(bad("R-MUSTCALL", inst, c.loc(c.body), c.qn, req, detail))
     # nested slices: Slice(start,len) constructs with startingOffset + start and len, under start + len <= sliceLength
     s2 = F.fn(SR + "::Slice", nparams=2)
     eng = Engine(F, S)
